@@ -2002,6 +2002,7 @@ class SparseVector:
         other_size = other.size
         other_dct = other.dct
         if size == other_size:
+            if other_dct is dct: other_dct = dct.copy() # a -= a: iterate over a snapshot, entries are deleted below
             for i, j in other_dct.items():
                 if i in dct:
                     j = dct[i] - j
